@@ -8,28 +8,35 @@ spec -> code: Pclean_Export enumerates concrete scenarios over one world with ov
               (repository content x installed set x the three exclusion flags x target x exclusion pattern x filters).
 code -> spec: seeded random worlds (package names that are prefixes of each other, shared and stale distfiles,
               sizes/ages on both sides of and exactly at the thresholds) with random options.
-Each scenario is materialised in a scratch directory; the REAL option pipeline of the script is run on a namespace
-(_initialize_opts, _setup_shared_opts, _setup_file_opts, _setup_restrictions, _dist_validate_args) and then the
-real _remove with a tty stdout; the files left in the distdir are compared with the files before.  "selected" is
-what the tool itself lists for the targets alone (no exclusions, no filters; non-tty listing mode).
+Each scenario is materialised in a scratch directory and rendered as a COMMAND LINE (targets, -x/--exclude csv,
+-X/--exclude-file with a real file, -I/-E/-f or their long forms, -m TIME, -s SIZE); the real `pclean` argument
+parser parses `dist <argv>` (every bound parse-priority / final-check function of the script runs as in production,
+against a config whose default domain is a stub), then the main function the parser selected (_remove) runs with a
+tty stdout; the files left in the distdir are compared with the files before.  Exclusion patterns reach the tool
+from -x, from an -X file, or from both at once.  "selected" is what the tool itself lists for the targets alone
+(no exclusions, no filters; non-tty listing mode).
 Judged by Pclean_Trace (clauses OnlySelected, PassesAge, PassesSize, KeepsInstalled, KeepsExisting,
 KeepsFetchRestricted, KeepsExcluded, RemovedUnknownFile, OutsideUntouched).  Which packages an exclusion pattern
 matches is decided by the TLA+ query-string spec (QueryGlob!Selects), not by the driver.
 
 Carve-outs: the target-name heuristics (regexes) are observed, not specified (DESIGN C46); a file exactly at a
-filter threshold may go either way; --pretend and the non-tty listing mode are not part of the property.
+filter threshold may go either way; --pretend and the non-tty listing mode are not part of the property; exclusion
+files are written without a trailing newline (an empty line makes the option parser fail before anything is
+removed -- not a deletion, so outside this property); a command line the parser refuses removes nothing and is
+counted in extra.refused.
 """
-import argparse
 import io
+import json
 import os
 import shutil
 import sys
+import time
 
 from pylib import tlc
 from pylib.common import mktmp, rng, use_repo
 
-ORIGIN = 1_600_000_000
 DAY = 86400
+AGE_DAYS = 10  # --modified is given as '10d'; a file of age class mrel is modified (mrel - T) days after that point
 INV = "INVARIANT SafeAlways\nINVARIANT RefusalsJustified\nINVARIANT ReferenceIsSafe\nINVARIANT FlagsMatter\n"
 
 
@@ -42,22 +49,44 @@ class _Stream(io.BytesIO):
         return self._tty
 
 
-class _Domain:
-    pass
-
-
 class World:
-    def __init__(self, pclean, FakePkg, FakeRepo, PlainTextFormatter):
-        self.pclean, self.FakePkg, self.FakeRepo, self.Fmt = pclean, FakePkg, FakeRepo, PlainTextFormatter
+    def __init__(self):
+        from pkgcore.config import basics
+        from pkgcore.config.hint import ConfigHint
+        from pkgcore.scripts import pclean
+        from pkgcore.test.misc import FakePkg, FakeRepo
+        from pkgcore.test.scripts.helpers import ArgParseMixin
+        from snakeoil.formatters import PlainTextFormatter
+
+        self.FakePkg, self.FakeRepo, self.Fmt = FakePkg, FakeRepo, PlainTextFormatter
         self.root = mktmp("pclean")
         self.distdir = os.path.join(self.root, "distfiles")
+        self.xfile = os.path.join(self.root, "exclude.list")
+        self.repo = self.installed = None
+        self.selected_cache = {}
+        world = self
+
+        class stub_domain:
+            pkgcore_config_type = ConfigHint(typename="domain")
+
+            def __init__(self):
+                self.distdir = world.distdir
+                self.all_installed_repos = world.installed
+                self.all_source_repos_raw = world.repo
+                self.source_repos = [world.repo]
+
+        class Parser(ArgParseMixin):
+            _argparser = pclean.argparser
+
+        self.parser = Parser()
+        self.section = basics.HardCodedConfigSection({"class": stub_domain, "default": True})
 
     def _pkg(self, d):
         p = self.FakePkg(f"{d['cat']}/{d['pkg']}-{d['ver']}", slot=d["slot"], restrict="fetch" if d["restricted"] else "")
         object.__setattr__(p, "distfiles", tuple(d["dist"]))
         return p
 
-    def build(self, files):
+    def build(self, case):
         shutil.rmtree(self.root, ignore_errors=True)
         os.makedirs(os.path.join(self.distdir, "subdir"))
         os.makedirs(os.path.join(self.root, "outside"))
@@ -65,12 +94,41 @@ class World:
                      os.path.join(self.root, "foo-2.tar.gz")):
             with open(path, "wb") as f:
                 f.write(b"keep")
-        for fl in files:
+        base = int(time.time()) - AGE_DAYS * DAY
+        for fl in case["files"]:
             path = os.path.join(self.distdir, fl["name"])
             with open(path, "wb") as f:
                 f.write(b"x" * fl["size"])
-            t = ORIGIN + fl["mrel"] * DAY
+            t = base + (fl["mrel"] - case["opts"]["T"]) * DAY
             os.utime(path, (t, t))
+        if case["xfile"]:
+            with open(self.xfile, "w") as f:
+                f.write("\n".join(case["xfile"]))  # (no trailing newline, see the module docstring)
+        self.repo = self.FakeRepo(pkgs=[self._pkg(d) for d in case["repo"]], repo_id="fake", location=os.path.join(self.root, "no-such-repo"))
+        self.installed = self.FakeRepo(pkgs=[self._pkg(d) for d in case["installed"]], repo_id="vdb")
+
+    def argv(self, case, r_=None):
+        """the command line of the scenario (short or long option spellings)"""
+        o = case["opts"]
+        pick = (lambda a, b: a) if r_ is None else (lambda a, b: r_.choice([a, b]))
+        args = []
+        if case["excludes"]:
+            args += [pick("-x", "--exclude"), ",".join(case["excludes"])]
+        if case["xfile"]:
+            args += [pick("-X", "--exclude-file"), self.xfile]
+        if o["exclInstalled"]:
+            args.append(pick("-I", "--installed"))
+        if o["exclExists"]:
+            args.append(pick("-E", "--exists"))
+        if o["exclFetch"]:
+            args.append(pick("-f", "--fetch-restricted"))
+        if o["useM"]:
+            args += [pick("-m", "--modified"), f"{AGE_DAYS}d"]
+        if o["useS"]:
+            args += [pick("-s", "--size"), f"{o['S']}B"]
+        if r_ is not None and r_.random() < 0.5:
+            return list(case["targets"]) + args
+        return args + list(case["targets"])
 
     def snapshot_outside(self):
         out = []
@@ -86,52 +144,41 @@ class World:
     def listing(self):
         return sorted(n for n in os.listdir(self.distdir) if os.path.isfile(os.path.join(self.distdir, n)))
 
-    def run(self, case, plain=False):
-        """plain: targets alone in listing mode (returns the listed names); else the real removal run."""
-        pc = self.pclean
-        repo = self.FakeRepo(pkgs=[self._pkg(d) for d in case["repo"]], location=os.path.join(self.root, "no-such-repo"))
-        dom = _Domain()
-        dom.distdir = self.distdir
-        dom.all_installed_repos = self.FakeRepo(pkgs=[self._pkg(d) for d in case["installed"]])
-        dom.all_source_repos_raw = repo
-        dom.source_repos = repo
-        o = case["opts"]
-        ns = argparse.Namespace(
-            domain=dom, repo=repo, targets=list(case["targets"]), exclude_file=None, pkgsets=None, pretend=False, verbosity=0,
-            prog="pclean", excludes=None if plain or not case["excludes"] else list(case["excludes"]),
-            exclude_installed=False if plain else o["exclInstalled"], exclude_exists=False if plain else o["exclExists"],
-            exclude_fetch_restricted=False if plain else o["exclFetch"],
-            modified=None if plain or not o["useM"] else float(ORIGIN + o["T"] * DAY),
-            size=None if plain or not o["useS"] else o["S"])
-        pc._initialize_opts(ns)
-        pc._setup_shared_opts(ns)
-        pc._setup_file_opts(ns)
-        pc._setup_restrictions(ns)
-        pc._dist_validate_args(None, ns)
-        out, err = _Stream(not plain), _Stream(False)
+    def invoke(self, args, tty):
+        """parse `pclean dist <args>` with the real parser, run the selected main function; returns (refused, stdout)"""
+        try:
+            ns = self.parser.parse("dist", *args, default_domain=self.section)
+        except (SystemExit, Exception) as e:  # usage errors of the parser: nothing has been removed
+            return f"{type(e).__name__}: {str(e)[:120]}", ""
+        out, err = _Stream(tty), _Stream(False)
         old = sys.stdout
         sys.stdout = out
         try:
-            pc._remove(ns, self.Fmt(out), self.Fmt(err))
+            ns.main_func(ns, self.Fmt(out), self.Fmt(err))
         finally:
             sys.stdout = old
-        if plain:
-            return sorted(os.path.basename(x) for x in out.getvalue().decode().split("\n") if x.strip())
-        return None
+        return "", out.getvalue().decode()
 
-    def observe(self, case):
-        self.build(case["files"])
+    def observe(self, case, r_=None):
+        self.build(case)
         cwd = os.getcwd()
         os.chdir(self.root)
         try:
-            selected = self.run(case, plain=True)
+            key = repr((case["files"], case["repo"], case["targets"]))
+            if key not in self.selected_cache:
+                refused, listed = self.invoke(list(case["targets"]), tty=False)
+                self.selected_cache[key] = None if refused else sorted(os.path.basename(x) for x in listed.split("\n") if x.strip())
+            selected = self.selected_cache[key]
             before, outside0 = self.listing(), self.snapshot_outside()
-            self.run(case)
+            args = self.argv(case, r_)
+            refused, _ = self.invoke(args, tty=True)
             after, outside1 = self.listing(), self.snapshot_outside()
         finally:
             os.chdir(cwd)
         removed = sorted(set(before) - set(after))
-        return selected, removed, outside0 != outside1 or bool(set(after) - set(before))
+        if selected is None:  # the targets themselves are refused by the parser
+            selected = []
+        return selected, removed, outside0 != outside1 or bool(set(after) - set(before)), refused, args
 
 
 def event(tid, case, selected, removed, outside):
@@ -139,7 +186,7 @@ def event(tid, case, selected, removed, outside):
                 installed=[dict(dist=list(d["dist"])) for d in case["installed"]],
                 repo=[dict(cat=list(d["cat"]), pkg=list(d["pkg"]), ver=list(d["ver"]), slot=list(d["slot"]), sub=list(d["slot"]),
                            repo=list("r"), dist=list(d["dist"]), restricted=d["restricted"]) for d in case["repo"]],
-                excludes=[list(x) for x in case["excludes"]], opts=case["opts"], outside=outside)
+                excludes=[list(x) for x in case["excludes"]], xfile=[list(x) for x in case["xfile"]], opts=case["opts"], outside=outside)
 
 
 # ---------------------------------------------------------------- random generation (inputs only)
@@ -167,36 +214,38 @@ def rand_case(r_):
     pat = lambda: r_.choice([r_.choice(PNAMES), r_.choice(CATS) + "/" + r_.choice(PNAMES), r_.choice(CATS) + "/*", r_.choice(PNAMES)[:3] + "*",
                              "*" + r_.choice(PNAMES)[-3:], "*/" + r_.choice(PNAMES)])
     targets = sorted({pat() for _ in range(r_.choice([0, 0, 1, 1, 2]))})
-    excludes = sorted({pat() for _ in range(r_.choice([0, 0, 0, 1, 2]))})
+    excludes = sorted({pat() for _ in range(r_.choice([0, 0, 1, 1, 2]))})
+    xfile = sorted({pat() for _ in range(r_.choice([0, 0, 1, 1, 2]))})
     opts = dict(exclInstalled=r_.random() < 0.4, exclExists=r_.random() < 0.4, exclFetch=r_.random() < 0.4,
                 useM=r_.random() < 0.3, useS=r_.random() < 0.3, T=2, S=200)
-    return dict(files=files, repo=repo, installed=installed, targets=targets, excludes=excludes, opts=opts)
+    return dict(files=files, repo=repo, installed=installed, targets=targets, excludes=excludes, xfile=xfile, opts=opts)
 
 
 def run(ck):
     use_repo()
-    from pkgcore.scripts import pclean
-    from pkgcore.test.misc import FakePkg, FakeRepo
-    from snakeoil.formatters import PlainTextFormatter
-
     ck.rule = ("cleaning scenarios enumerated by TLC and seeded random ones, each materialised in a scratch distdir and cleaned by the "
-               "real pclean dist pipeline; non-trivial = distinct scenario in which at least one file was removed and at least one "
+               "real `pclean dist` argument parser + main function; non-trivial = distinct scenario in which at least one file was removed and at least one "
                "file selected by the targets was kept")
     ck.assumptions = [
-        "repositories are pkgcore.test.misc.FakeRepo/FakePkg objects (distfiles, RESTRICT=fetch, real CPV parsing); the domain is a stub "
-        "exposing distdir / all_installed_repos / source_repos; argparse itself is not exercised (the namespace is filled in directly)",
+        "repositories are pkgcore.test.misc.FakeRepo/FakePkg objects (distfiles, RESTRICT=fetch, real CPV parsing); the default domain of the "
+        "config handed to the real argument parser is a stub exposing distdir / all_installed_repos / source_repos",
         "the target-name heuristics are observed (tool's own listing for the targets alone), not specified",
         "stdout is presented as a tty (the script only lists when it is not)",
     ]
-    w = World(pclean, FakePkg, FakeRepo, PlainTextFormatter)
+    w = World()
     events, cases = [], {}
 
-    def record(case):
-        selected, removed, outside = w.observe(case)
+    def record(case, r_=None):
+        case.setdefault("xfile", [])
+        selected, removed, outside, refused, args = w.observe(case, r_)
         tid = len(events)
         events.append(event(tid, case, selected, removed, outside))
-        cases[tid] = case
+        cases[tid] = (case, args, refused)
         ck.count()
+        if refused:
+            ck.extra["refused"] = ck.extra.get("refused", 0) + 1
+        if case["excludes"] and case["xfile"]:
+            ck.extra["exclusions_from_both_x_and_X"] = ck.extra.get("exclusions_from_both_x_and_X", 0) + 1
         if removed and set(selected) - set(removed):
             ck.nontriv(repr(case))
         return events[-1]
@@ -204,19 +253,21 @@ def run(ck):
     def judge(label):
         verdicts = ck.trace("Pclean_Trace", events, label=label, timeout=ck.pick(400, 3000))
         for v in verdicts:
-            e, case = events[v["tid"]], cases[v["tid"]]
+            e, (case, args, refused) = events[v["tid"]], cases[v["tid"]]
             if v["clause"] == "OutsideDomain":
                 raise tlc.MachineryError(f"generated case leaves the domain: {case}")
             o = case["opts"]
-            ck.violation(v["clause"], dict(case=case, removed=e["removed"], selected=e["selected"], targets=case["targets"],
-                                           excludes=case["excludes"],
+            ck.violation(v["clause"], dict(case=case, argv=[a if a != w.xfile else "<exclusion file>" for a in args],
+                                           removed=e["removed"], selected=e["selected"], targets=case["targets"],
+                                           excludes=case["excludes"], xfile=case["xfile"],
                                            flags="".join(k for k, f in (("I", o["exclInstalled"]), ("E", o["exclExists"]), ("f", o["exclFetch"])) if f)))
 
     def unchars(c):
         tx = lambda x: "".join(x)
         pk = lambda d: dict(cat=tx(d["cat"]), pkg=tx(d["pkg"]), ver=tx(d["ver"]), slot=tx(d["slot"]), dist=list(d["dist"]), restricted=d["restricted"])
         return dict(files=c["files"], repo=[pk(d) for d in c["repo"]], installed=[pk(d) for d in c["installed"]],
-                    targets=[tx(t) for t in c["targets"]], excludes=[tx(t) for t in c["excludes"]], opts=c["opts"])
+                    targets=[tx(t) for t in c["targets"]], excludes=[tx(t) for t in c["excludes"]],
+                    xfile=[tx(t) for t in c["xfile"]], opts=c["opts"])
 
     if ck.replay_case:
         e = record(ck.replay_case["detail"]["case"])
@@ -227,25 +278,29 @@ def run(ck):
         return
 
     # 1. the design
-    ck.mc("Pclean_MC", cfg_text="SPECIFICATION Spec\nCONSTANTS AgeVals = " + ck.pick("{1}", "{1, 3}") + "\n SizeVals = {1, 3}\n UseFilters = "
-          + ck.pick("{TRUE}", "{TRUE, FALSE}") + "\n" + INV, workers=4, timeout=ck.pick(300, 3000), label="MC:Pclean_MC")
+    out = os.path.join(mktmp("export"), "c46-cases.ndjson")
+    res = tlc.run("Pclean_MC", cfg_text=f"SPECIFICATION Spec\nCONSTANTS Size = {ck.pick(1, 2)}\n AgeVals = " + ck.pick("{1}", "{1, 3}")
+                  + "\n SizeVals = {1, 3}\n UseFilters = " + ck.pick("{TRUE}", "{TRUE, FALSE}") + "\n" + INV, workers=4,
+                  timeout=ck.pick(300, 3000), env={"OUT": out}, allow_violation=False)
+    ck.add_mc("MC+Export:Pclean_MC (Pclean_Export scenarios written by the same run)", res)
     ck.exhaustive = False
     # 2. spec -> code
-    exported = ck.export("Pclean_Export", cfg_text=f"CONSTANT Size = {ck.pick(1, 2)}\n", timeout=900)
+    with open(out) as f:
+        exported = [json.loads(line) for line in f if line.strip()]
     exported = sorted((unchars(c) for c in exported), key=repr)
     if len(exported) < 1000:
         raise tlc.MachineryError(f"export too small: {len(exported)}")
     for c in exported:
         e = record(c)
-    k = next(e for e in events if e["removed"] and cases[e["tid"]]["targets"] and cases[e["tid"]]["opts"]["exclInstalled"])
-    ck.sample(dict(direction="spec->code", targets=cases[k["tid"]]["targets"], excludes=cases[k["tid"]]["excludes"], opts=k["opts"],
-                   selected=k["selected"], removed=k["removed"]))
+    k = next(e for e in events if e["removed"] and cases[e["tid"]][0]["targets"] and e["excludes"] and e["xfile"])
+    ck.sample(dict(direction="spec->code", argv=[a if a != w.xfile else "<exclusion file>" for a in cases[k["tid"]][1]],
+                   exclusion_file=cases[k["tid"]][0]["xfile"], selected=k["selected"], removed=k["removed"]))
     # 3. code -> spec
     r_ = rng(46)
-    for n in range(ck.pick(1500, 15000)):
-        e = record(rand_case(r_))
+    for n in range(ck.pick(900, 9000)):
+        e = record(rand_case(r_), r_)
         if n == 7:
-            ck.sample(dict(direction="code->spec", case=cases[e["tid"]], selected=e["selected"], removed=e["removed"]))
+            ck.sample(dict(direction="code->spec", case=cases[e["tid"]][0], selected=e["selected"], removed=e["removed"]))
     judge("Trace:exported+random scenarios")
-    if len(ck.nontrivial) < 200:
-        raise tlc.MachineryError(f"too few non-trivial scenarios: {len(ck.nontrivial)}")
+    if len(ck.nontrivial) < 200 or ck.extra.get("refused", 0) * 5 > len(events) or ck.extra.get("exclusions_from_both_x_and_X", 0) < 100:
+        raise tlc.MachineryError(f"too few non-trivial scenarios: {len(ck.nontrivial)} non-trivial, {ck.extra}")
